@@ -2,7 +2,7 @@
    Kernel/Stop.v: two processes, one shared event triggered at t = 2, a waiter that registers at t = 1). *)
 From Coq Require Import ZArith QArith List Bool Lia.
 From ONL Require Import Kernel.Model Kernel.Script Kernel.Keys Kernel.Inv Kernel.Order Kernel.Deliver Kernel.DeliverWf
-  Kernel.DeliverVal Kernel.StopFrame Kernel.StopInv Kernel.Stop Kernel.StopSpec.
+  Kernel.DeliverVal Kernel.StopFrame Kernel.StopInv Kernel.Stop Kernel.StopSpec Kernel.StopErase Kernel.StopSplit.
 Import ListNotations.
 
 (* the state after the module-level code is calm: run_until_number_spec / run_until_event_spec apply to it *)
@@ -60,4 +60,18 @@ Proof.
   - right. eexists. vm_compute. reflexivity.
   - right. eexists. vm_compute. reflexivity.
   - left. vm_compute. discriminate.
+Qed.
+
+(* split_transparent_events_steps_run applies to the witness: stop at G0, make two single steps, run to the end *)
+Example ex_split_events_steps :
+  let plan := [SEv 0%nat; SStep 1; SStep 1; SRun] in
+  logs (fst (run_split 100 wit_codes plan wit_s0)) = logs (fst (run 100 wit_codes UNone wit_s0)).
+Proof.
+  cbn zeta. destruct (run 100 wit_codes UNone wit_s0) as [U r] eqn:R.
+  assert (Er : r = ROk) by (change r with (snd (U, r)); rewrite <- R; vm_compute; reflexivity). subst r.
+  pose proof ex_calm as (G & Ui & _ & Ns & _).
+  apply (split_transparent_events_steps_run 100 wit_codes [SEv 0%nat; SStep 1; SStep 1; SRun] wit_s0 U Ui Ns).
+  - intros st [<-|[<-|[<-|[<-|[]]]]]; exact I.
+  - exact R.
+  - vm_compute. reflexivity.
 Qed.
